@@ -27,7 +27,7 @@ fn spec(t: Tier) -> Spec {
     Spec {
         id: "C18",
         level: "exploration",
-        rule: format!("every list of <= {} starting points over {} spellings (directory, ./, trailing /, //, /., ../, absolute, missing, file, link to directory with and without trailing /, dangling link, names beginning with ( and !; lists of <= 2 also under -H and -L) (plus, through -files0-from only: the empty name, a name starting with '-', a name containing a newline) is walked by find_main; the -print0 output must be the concatenation, in order, of the per-root reference walks with every path beginning with the root exactly as spelled; each argv list is also given as -files0-from FILE (with and without final NUL) and must give byte-identical output; missing roots must be diagnosed with non-zero status without affecting the others; the no-root case must equal '.' (also for expressions beginning with '!' or '(', after -H/-L/-P, and for expressions selecting nothing); lists with a missing starting point under six -mindepth/-maxdepth windows (two of them empty): diagnosed, non-zero, the others walked; an empty name is skipped (at most one diagnostic per empty name and no report of an attempt to examine it); alignment sweep: lists of ~1400 and ~2800 names with the terminator of a name at every byte offset 8186..8198 and 16380..16388 (FILE and stdin); binary slice: -files0-from - on stdin; environment cases: a -files0-from list written to a pipe in three pieces; four starting points (one missing) with standard output on /dev/full — all still processed, seen through -fprint; a list holding a name that is not valid UTF-8 (walked, or refused loudly); scale slice: 3000 starting points (18 000-byte list) on the command line, via -files0-from FILE and via -files0-from - with and without a final NUL; 255, 256, 257 and 512 missing starting points followed by an existing one through the binary (every one diagnosed, exit status non-zero, the existing one walked); non-trivial = list with >= 2 roots or a non-canonical spelling", bounds(t), ARGV_ROOTS.len()),
+        rule: format!("every list of <= {} starting points over {} spellings (directory, ./, trailing /, //, /., ../, absolute, missing, file, link to directory with and without trailing /, dangling link, names beginning with ( and !; lists of <= 2 also under -H and -L) (plus, through -files0-from only: the empty name, a name starting with '-', a name containing a newline) is walked by find_main; the -print0 output must be the concatenation, in order, of the per-root reference walks with every path beginning with the root exactly as spelled; each argv list is also given as -files0-from FILE (with and without final NUL) and must give byte-identical output; missing roots must be diagnosed with non-zero status without affecting the others; the no-root case must equal '.' (also for expressions beginning with '!' or '(', after -H/-L/-P, and for expressions selecting nothing); lists with a missing starting point under six -mindepth/-maxdepth windows (two of them empty): diagnosed, non-zero, the others walked; an empty name is skipped (at most one diagnostic per empty name and no report of an attempt to examine it); alignment sweep: lists of ~1400 and ~2800 names with the terminator of a name at every byte offset 8186..8198 and 16380..16388 (FILE and stdin); binary slice: -files0-from - on stdin; environment cases: a -files0-from list written to a pipe in three pieces; four starting points (one missing) with standard output on /dev/full — all still processed, seen through -fprint; a list holding a name that is not valid UTF-8 (walked, or refused loudly — a look-alike with the lossy spelling exists and must not be walked in its place); starting points that cannot be examined for other reasons than ENOENT (a link to itself, a cycle of one link through a sub-path, a 300-byte name, a path through a file) in three positions between two that are fine, x -P/-H/-L x command line / -files0-from; scale slice: 3000 starting points (18 000-byte list) on the command line, via -files0-from FILE and via -files0-from - with and without a final NUL; 255, 256, 257 and 512 missing starting points followed by an existing one through the binary (every one diagnosed, exit status non-zero, the existing one walked); non-trivial = list with >= 2 roots or a non-canonical spelling", bounds(t), ARGV_ROOTS.len()),
         bound: json!({"max_roots": bounds(t), "argv_spellings": ARGV_ROOTS, "files0_only": FILES0_ONLY}),
         assumptions: vec!["exit status after an empty -files0-from name is not judged (statement: 'diagnosed and skipped')".into()],
         shards: 0,
@@ -538,6 +538,9 @@ fn environment_cases(ctx: &mut Ctx) {
     use std::os::unix::ffi::OsStrExt;
     let odd = many.join(std::ffi::OsStr::from_bytes(b"b\xff"));
     let _ = std::fs::write(&odd, b"");
+    // (a look-alike whose name is the lossy rendering of the undecodable one: it is not in the list)
+    let decoy = many.join("b\u{fffd}");
+    let _ = std::fs::write(&decoy, b"");
     for (variant, final_nul) in [(0, true), (0, false), (1, true), (1, false), (2, false)] {
         // the undecodable name in the middle, at the end, alone
         let mut data = [&b"n0001\0b\xff\0n0002"[..], &b"n0001\0n0002\0b\xff"[..], &b"b\xff"[..]][variant].to_vec();
@@ -550,12 +553,81 @@ fn environment_cases(ctx: &mut Ctx) {
         ctx.rep.count("environment_cases", 1);
         let all_names: &[u8] = [&b"n0001\0b\xff\0n0002\0"[..], &b"n0001\0n0002\0b\xff\0"[..], &b"b\xff\0"[..]][variant];
         let walked_all = got.out == all_names && got.code == Ok(0);
-        let refused = got.code.as_ref().is_ok_and(|c| *c != 0) && !got.err.is_empty() && !got.out.windows(2).any(|w| w == b"b\xff");
+        let refused = got.code.as_ref().is_ok_and(|c| *c != 0) && !got.err.is_empty() && !got.out.windows(2).any(|w| w == b"b\xff") && !got.out.windows(4).any(|w| w == "b\u{fffd}".as_bytes());
         if !(walked_all || refused) {
             ctx.rep.violation("C18 a name in the -files0-from list that is not valid UTF-8 is dropped silently", format!("list {:?} (final NUL: {final_nul}): printed {:?}, status {:?}, stderr {:?}", String::from_utf8_lossy(&data), String::from_utf8_lossy(&got.out), got.code, String::from_utf8_lossy(&got.err)), json!({"prop":"C18","scale":true}));
         }
     }
     let _ = std::fs::remove_file(&odd);
+    let _ = std::fs::remove_file(&decoy);
+    unexaminable_roots(ctx);
+}
+
+/// Starting points that cannot be examined for reasons other than "no such file": a link to itself
+/// (ELOOP when followed) and a name longer than NAME_MAX, between starting points that are fine:
+/// diagnosed, non-zero status, and the others walked — on the command line and through -files0-from.
+fn unexaminable_roots(ctx: &mut Ctx) {
+    let base = ctx.sbx.join("ur");
+    let _ = crate::sandbox::force_remove(&base);
+    std::fs::create_dir_all(base.join("a")).unwrap();
+    std::fs::create_dir_all(base.join("b")).unwrap();
+    std::fs::write(base.join("a/x"), b"").unwrap();
+    std::fs::write(base.join("b/g"), b"").unwrap();
+    std::os::unix::fs::symlink("loop", base.join("loop")).unwrap();
+    std::os::unix::fs::symlink("loop2/in", base.join("loop2")).unwrap();
+    let long = "n".repeat(300);
+    std::env::set_current_dir(&base).unwrap();
+    let listf = ctx.sbx.join(".mc-files0");
+    for flag in ["-P", "-H", "-L"] {
+        for bad in ["loop", "loop2", long.as_str(), "a/x/", "a/x/y"] {
+            for order in [0usize, 1, 2] {
+                let roots: Vec<&str> = match order {
+                    0 => vec!["a", bad, "b"],
+                    1 => vec![bad, "a", "b"],
+                    _ => vec!["a", "b", bad],
+                };
+                // under -P a link to itself is an entry like any other
+                let is_entry = flag == "-P" && bad.starts_with("loop");
+                let mut want: Vec<u8> = vec![];
+                for r in &roots {
+                    match *r {
+                        "a" => want.extend_from_slice(b"a\0a/x\0"),
+                        "b" => want.extend_from_slice(b"b\0b/g\0"),
+                        x if is_entry => {
+                            want.extend_from_slice(x.as_bytes());
+                            want.push(0);
+                        }
+                        _ => {}
+                    }
+                }
+                for via_list in [false, true] {
+                    let av: Vec<String> = if via_list {
+                        let data: Vec<u8> = roots.iter().flat_map(|r| r.bytes().chain(std::iter::once(0))).collect();
+                        std::fs::write(&listf, data).unwrap();
+                        vec![flag.into(), "-files0-from".into(), listf.to_string_lossy().to_string(), "-sorted".into(), "-print0".into()]
+                    } else {
+                        std::iter::once(flag.to_string()).chain(roots.iter().map(|r| r.to_string())).chain(["-sorted".to_string(), "-print0".to_string()]).collect()
+                    };
+                    let args: Vec<&str> = av.iter().map(|s| s.as_str()).collect();
+                    let got = run_find(&args);
+                    ctx.rep.evaluations += 1;
+                    ctx.rep.nontrivial += 1;
+                    ctx.rep.count("unexaminable_root_cases", 1);
+                    let status_ok = if is_entry { got.code == Ok(0) } else { matches!(got.code, Ok(c) if c != 0) && !got.err.is_empty() };
+                    if got.out != want || !status_ok {
+                        let what = if bad.len() > 100 { "a name longer than NAME_MAX" } else if bad.starts_with("loop") { "a link to itself" } else { "a path through a file" };
+                        ctx.rep.violation(
+                            &format!("C18 a starting point that cannot be examined ({what}) is not diagnosed with a non-zero status, or keeps the others from being processed"),
+                            format!("find {:?}: status {:?}; printed {:?}, expected {:?}; stderr {:?}", av.iter().map(|a| if a.len() > 100 { "<300 n>".to_string() } else { a.clone() }).collect::<Vec<_>>(), got.code, String::from_utf8_lossy(&got.out).replace('\0', " | "), String::from_utf8_lossy(&want).replace('\0', " | "), String::from_utf8_lossy(&got.err).lines().take(2).collect::<Vec<_>>()),
+                            json!({"prop":"C18","scale":true}),
+                        );
+                    }
+                }
+            }
+        }
+    }
+    std::env::set_current_dir(&ctx.sbx).ok();
+    let _ = crate::sandbox::force_remove(&base);
 }
 
 fn replay(case: &Value, ctx: &mut Ctx) -> Option<String> {
